@@ -4,6 +4,7 @@ for l in open('/verif/properties.jsonl'):
     p=json.loads(l)
     if p['id']==pid: break
 txt="ID: %s\nTitle: %s\nStatement: %s\nQuantified over: %s\nWhy the existing tests cannot settle it: %s\nCode anchors: %s" % (p['id'],p['title'],p['statement'],p['quantifier']['text'],p['why_tests_cant'],json.dumps(p['anchors']))
-t=open('/tmp/mut/PROMPT.tmpl').read()
-wt='/tmp/mut/%s.wt'%pid; out='/tmp/mut/%s.out'%pid
+t=open('/tmp/mut/PROMPT2.tmpl' if len(sys.argv)>2 else '/tmp/mut/PROMPT.tmpl').read()
+sfx=('.'+sys.argv[2]) if len(sys.argv)>2 else ''
+wt='/tmp/mut/%s%s.wt'%(pid,sfx); out='/tmp/mut/%s%s.out'%(pid,sfx)
 print(t.replace('@WT@',wt).replace('@OUT@',out).replace('@PROPERTY@',txt).replace('@PID@',pid))
